@@ -398,6 +398,7 @@ func isUnsigned(t types.Type) bool {
 	b, ok := t.Underlying().(*types.Basic)
 	return ok && b.Info()&types.IsUnsigned != 0
 }
+
 // unsignedBits is the width of an unsigned integer type (uint and uintptr are
 // 64 bits wide on the platforms the server runs on), 0 for other types.
 func unsignedBits(t types.Type) int {
